@@ -107,10 +107,6 @@ class Gen:
             al = rng.choice([None, None, None, [1, 2], [2, 3, 5], [mn + 1]])
             kind = ("var", mn, mx, al)
         d = {"op": "task", "name": name, "kind": kind, "optional": rng.random() < 0.35}
-        if self.frag and d["optional"]:
-            # outside the core fragment: optional tasks with release dates / work amounts (findings F7, F26)
-            self.emit(d)
-            return
         if rng.random() < 0.3:
             d["release"] = rng.choice([0, 1, 2, 3, 5])
         if rng.random() < 0.35:
